@@ -1,4 +1,5 @@
 import TracklibVerif.Model.TextIO
+import TracklibVerif.Model.TextIOSession
 import TracklibVerif.Drv.Util
 /-! Driver handler for C13 (text writers / readers). Strings cross the boundary as lower-case hex of
 their character codes (`_` = empty string); a separator as its character code.
@@ -26,7 +27,14 @@ their character codes (`_` = empty string); a separator as its character code.
                                         → W:<hex> R:ok x:y:z|… | R:err:<kind>
   gpx  <geo> <rfmt> <name> <rows>       → W:<hex> R:ok <track>|<track> | R:err:<kind>
   wktparse <hex text>                   → ok x:y:z|… | err:<kind>        (TrackReader.parseWkt on any text)
-  gpxaf <geo> <rfmt> <name> <naf> <names> <rows>   the same with `af=True`: names `<hex>,…`, rows with af tokens -/
+  gpxaf <geo> <rfmt> <name> <naf> <names> <rows>   the same with `af=True`: names `<hex>,…`, rows with af tokens
+  sess <op>~<op>…   a session on the class-level state of ObsTime (Model/TextIOSession.lean), from the state of the class body.
+       ops: `R:<hex>` setReadFormat  `P:<hex>` setPrintFormat  `p:<Y,M,D,h,m,s,ms>` str(t)  `r:<hex>` readTimestamp(text)
+            `l:` readTimestamp(last printed text)  `z:<stamp>` timeWithZone
+            `c:<geo>/<idE>/<idN>/<idU>/<idT>/<sep>/<h>/<hdrR>/<hex srid>/<rows>` writeToFile then readFromCsv (rows `;`-joined)
+            `g:<hex name>/<rows>` writeToGpx(track)
+                                        → per op `<out> @ <hex read fmt>,<hex print fmt>,<precompiled list>` joined by ` ## `;
+                                          out: `-` | `T<hex>` | `F<hex>` | `S<stamp>` | `Snone` | the reply of `csv` -/
 namespace TV.Drv.C13
 open TV.TextIO TV.ObsTime TV.Drv
 
@@ -180,8 +188,64 @@ def showOptStr : Option Str → String
   | none => "-"
   | some s => toHex s
 
+def stampTok? (s : String) : Option Stamp := (intList? s).bind stampOf?
+
+def sopOf? (s : String) : Option SOp :=
+  match splitTok s ':' with
+  | [k, a] =>
+    if k == "R" then (unhex? a).map SOp.setRead
+    else if k == "P" then (unhex? a).map SOp.setPrint
+    else if k == "p" then (stampTok? a).map SOp.print
+    else if k == "r" then (unhex? a).map SOp.read
+    else if k == "l" then some SOp.readLast
+    else if k == "z" then (stampTok? a).map SOp.tz
+    else if k == "c" then
+      match splitTok a '/' with
+      | [geo, ie, iN, iu, it, sep, h, hr, srid, rows] => do
+        let geo ← geo.toNat?
+        let ie ← ie.toInt?
+        let iN ← iN.toInt?
+        let iu ← iu.toInt?
+        let it ← it.toInt?
+        let sep ← sepOf? sep
+        let h ← h.toNat?
+        let hr ← hr.toNat?
+        let srid ← unhex? srid
+        let rws ← trackOf? rows
+        if ie < -1 ∨ iN < -1 ∨ iu < -1 ∨ it < -1 then none
+        else pure (SOp.csv ⟨ie, iN, iu, it, sep⟩ (geo == 1) h hr srid rws)
+      | _ => none
+    else if k == "g" then
+      match splitTok a '/' with
+      | [name, rows] => do
+        let name ← unhex? name
+        let rws ← trackOf? rows
+        pure (SOp.gpxw name (rws.map (fun r => (⟨r.x, r.y, r.z, r.t⟩ : GRow))))
+      | _ => none
+    else none
+  | _ => none
+
+def showSOut : SOut → String
+  | .none => "-"
+  | .text s => "T" ++ toHex s
+  | .file s => "F" ++ toHex s
+  | .stamp none => "Snone"
+  | .stamp (some t) => "S" ++ showStampC t
+  | .csv (.error e) _ => s!"werr:{e} R:none"
+  | .csv (.ok text) (.error e) => s!"W:{toHex text} R:err:{e}"
+  | .csv (.ok text) (.ok rs) => s!"W:{toHex text} R:ok " ++ joinWith ";" (rs.map showRRow)
+
+def showTState (st : TState) : String :=
+  s!"{toHex st.readFmt},{toHex st.printFmt}," ++ joinWith "." (st.pre.map (fun (x : (Nat × Char) × Nat) => s!"{x.1.1}{x.1.2}:{x.2}"))
+
+def handleSess (ops : String) : String :=
+  match (splitTok ops '~').mapM sopOf? with
+  | some ops => " ## ".intercalate ((runOuts TState.init [] ops).map (fun (x : SOut × TState) => s!"{showSOut x.1} @ {showTState x.2}"))
+  | none => "bad-request"
+
 def handle (cmd : String) (args : List String) : String :=
   match cmd, args with
+  | "sess", [ops] => handleSess ops
   | "wktfile", [sep, hdr, hr, quoted, dq, blank, pw, pu, pt, iu, it, d, tracks] =>
     match sepOf? sep, hdr.toNat?, hr.toNat?, quoted.toNat?, dq.toNat?, blank.toNat?, pw.toNat?, pu.toNat? with
     | some sep, some hdr, some hr, some quoted, some dq, some blank, some pw, some pu =>
